@@ -219,6 +219,12 @@ func c06Scope(c *mon.Ctx, r *mon.Rand) {
 	traceIDs, _ := rc.trace(prog)
 	if c.Guard("panic-scope/"+kind, func() interface{} { return desc }, func() {
 		root, _ = vNewRoot(opts, 0, uint(r.Range(0, 4)))
+		// the options struct belongs to the caller again (a configuration loader
+		// re-uses it for the next scope): the scope keeps the rules it was given
+		if so := opts.SanitizeOptions; so != nil {
+			only := tally.ValidCharacters{Ranges: []tally.SanitizeRange{{'!', '!'}}}
+			*so = tally.SanitizeOptions{NameCharacters: only, KeyCharacters: only, ValueCharacters: only, ReplacementCharacter: '!'}
+		}
 		recordOn := func(scopes []tally.Scope) {
 			for i, s := range scopes {
 				if i != 0 && i != len(scopes)-1 && r.Bool() {
